@@ -165,7 +165,7 @@ impl<'a> Eval<'a> {
             rep.inc("evals_on_reader_that_has_seen_the_end");
         }
         let needed = match need {
-            Some(i) => (i + 1).min(s.len()),
+            Some(i) => i.saturating_add(1).min(s.len()),
             None => 0,
         };
         let exp_delivered = delivered_before.max(needed);
@@ -222,7 +222,7 @@ impl<'a> Eval<'a> {
                     .set("schedule", J::s("1 byte per read, chunk size 1"))
                     .set("problems", J::A(bad.into_iter().map(J::s).collect())),
             );
-        } else if rep.want_sample() && exp > o + 1 {
+        } else if rep.want_sample() && exp > o.saturating_add(1) {
             rep.sample(|| {
                 J::obj()
                     .set("fn", J::s(format!("{:?}", f)))
@@ -364,6 +364,19 @@ impl Monitor for C16 {
                     let ps = patterns(&s, o, None);
                     let p = &ps[(idx as usize) % ps.len()];
                     ev.strict(rep, F::Fixed, o, p, pre, adv);
+                }
+                // start offsets at the top of the usize range: nothing is there, the offset comes back
+                // unchanged (and no arithmetic on it may go wrong)
+                if o == 0 && idx % 8 == 0 {
+                    for ho in [usize::MAX, usize::MAX - 1, usize::MAX - 2, usize::MAX - 8, 1usize << 63, (1usize << 32) + 1] {
+                        for f in [F::Blanks, F::Newline, F::NextNewline] {
+                            ev.strict(rep, f, ho, &[], 0, 0);
+                            ev.strict(rep, f, ho, &[], s.len() + 1, 0);
+                        }
+                        ev.strict(rep, F::Fixed, ho, b"ab", 0, 0);
+                        ev.strict(rep, F::Fixed, ho, &[], s.len(), 0);
+                        rep.inc("evals_at_offsets_near_usize_max");
+                    }
                 }
                 // the same on a reader that has already seen the end of input (an earlier request went
                 // past it), with and without the cursor advanced
